@@ -14,6 +14,35 @@
 #include <utility>
 #include <dune/common/arraylist.hh>
 
+
+// All random-access paths of one iterator type over [b,e) must show the element sequence v (obtained by const_iterator
+// dereference/increment): operator[] from begin() and from a middle position (both directions), the iterator's public elementAt,
+// reverse walk with --, it+n / it-n / += / -=, distances and order comparisons, post-increment.  tag names the iterator type.
+template<class It>
+static void ra_checks(It b, It e, const std::vector<int>& v, std::string& flags, const char* tag)
+{
+  const std::ptrdiff_t n = (std::ptrdiff_t) v.size();
+  auto fail = [&](const char* what) { std::string f = std::string("!") + tag + what; if (flags.find(f) == std::string::npos) flags += f; };
+  if (e - b != n || b - e != -n) fail("dist");
+  for (std::ptrdiff_t i = 0; i < n; ++i) {
+    if (b[i] != v[i]) fail("[]");                                  // operator[] from begin()
+    if (b.elementAt((std::size_t) i) != v[i]) fail("elementAt");
+    if (*(b + i) != v[i] || *(e - (n - i)) != v[i]) fail("+n");
+    It c = b; c += i; if (*c != v[i] || c - b != i || e - c != n - i) fail("+=");
+    It d = e; d -= (n - i); if (!(d == c) || d != c) fail("-=");
+    if ((i > 0) != (b < c) || (c < b) || !(c < e) || !(b <= c) || !(c >= b) || (i > 0) != (c > b)) fail("<");
+  }
+  const std::ptrdiff_t m = n / 2;                                  // operator[] relative to a middle position, both directions
+  It mid = b + m;
+  for (std::ptrdiff_t i = 0; i < n; ++i) if (mid[i - m] != v[i]) fail("mid[]");
+  std::ptrdiff_t k = n;                                            // reverse walk
+  for (It r = e; r != b; ) { --r; --k; if (k < 0 || *r != v[k]) { fail("--"); break; } }
+  if (k != 0 && n > 0) fail("--len");
+  k = 0;                                                           // post-increment / post-decrement
+  for (It f = b; f != e; ++k) { It old = f++; if (k >= n || *old != v[k]) { fail("++post"); break; } }
+  if (n > 0) { It l = e; It old = l--; if (!(old == e) || *l != v[n - 1]) fail("--post"); }
+}
+
 template<int N>
 static void run(const std::vector<std::string>& ops)
 {
@@ -58,6 +87,15 @@ static void run(const std::vector<std::string>& ops)
       if (!ok || j != viter.size()) flags += "!mit";
     }
     if ((al.end() - al.begin()) != (std::ptrdiff_t) al.size()) flags += "!dist";
+    if (viter.size() == cal.size()) {
+      ra_checks<typename AL::const_iterator>(cal.begin(), cal.end(), viter, flags, "ci");     // const list, const_iterator
+      ra_checks<typename AL::iterator>(al.begin(), al.end(), viter, flags, "mi");             // mutable iterator
+      ra_checks<typename AL::const_iterator>(typename AL::const_iterator(al.begin()), typename AL::const_iterator(al.end()), viter, flags, "cmi");  // converted
+      typename AL::iterator pb = al.begin(), pe = al.end();
+      if (pe.position() - pb.position() != al.size()) flags += "!pos";
+      typename AL::const_iterator cb = cal.begin(); typename AL::iterator mb = al.begin();
+      if (!(mb == cb) || (cal.size() > 0 && mb == typename AL::const_iterator(al.end()))) flags += "!mix==";
+    }
     obs += has ? std::to_string(*held) : std::string("-");
     c11::step_done(obs + flags);
   }
